@@ -106,6 +106,16 @@ func (c *C12) Run(x *engine.Ctx) *engine.Violation {
 	if t.Chance(1, 4) {
 		batch = 5 + t.Draw(6) // larger batches: a field that only matters above some size
 	}
+	large := t.Chance(1, 6)
+	if large {
+		// production-like dimensions: anything keyed on the size of the circuit (a threshold in compile
+		// options, a narrower integer type, chunking) only shows here
+		depth, batch = 16+t.Draw(16), 8+t.Draw(16)
+		if mode == rollup.Deletion && depth > 31 {
+			depth = 31
+		}
+		x.S.Count("probe:large_dimensions")
+	}
 	if batch == depth {
 		batch++
 	}
@@ -180,7 +190,7 @@ func (c *C12) Run(x *engine.Ctx) *engine.Violation {
 		return differ(key, "two compilations in one process differ", hashes)
 	}
 	// node A: setup path; node B: import path with A's keys (cost: one Groth16 setup)
-	if depth <= 10 || t.Chance(1, 3) {
+	if depth <= 10 || large || t.Chance(1, 3) {
 		a, err := gtier.Setup(mode, depth, batch, x.Run)
 		if err != nil {
 			return engine.Violatef("C12/setup-path-fails", "%s: %v", key, err)
